@@ -4,8 +4,19 @@
 
 use crate::ctx::{Ctx, Stream::F};
 
-pub const FAULT_KINDS: [&str; 10] =
-    ["truncate", "bit-flip", "byte-burst", "zero-block", "stale-block", "misdirected-block", "duplicated-block", "splice", "digit-edit", "ref-retarget"];
+pub const FAULT_KINDS: [&str; 11] = [
+    "truncate",
+    "bit-flip",
+    "byte-burst",
+    "zero-block",
+    "stale-block",
+    "misdirected-block",
+    "duplicated-block",
+    "splice",
+    "digit-edit",
+    "ref-retarget",
+    "replicated-block",
+];
 
 /// Positions of `N G R` reference tokens: (start of N, end of N, preceded by /Length).
 fn find_refs(img: &[u8]) -> Vec<(usize, usize, bool)> {
@@ -155,6 +166,22 @@ pub fn apply_fault(ctx: &Ctx, img: &mut Vec<u8>, older: Option<&[u8]>, hot: &[(u
                     img[to + i] = *c;
                 }
             }
+        }
+        "replicated-block" => {
+            // duplicated delivery gone wild (a retry storm): one block delivered many times
+            let b = [16usize, 64, 512][ctx.draw(F, 3, "replica-block-size") as usize];
+            let p = position(ctx, len, hot) / b * b;
+            let blk: Vec<u8> = img[p..(p + b).min(len)].to_vec();
+            let mut times = [2usize, 2, 8, 8, 64, 64, 512, 512, 4096, 4096, 16384, 65536][ctx.draw(F, 12, "replicas") as usize];
+            while times * blk.len() > (1 << 20) {
+                times /= 2;
+            }
+            let at = (p + blk.len()).min(len);
+            let mut ins = Vec::with_capacity(times * blk.len());
+            for _ in 0..times {
+                ins.extend_from_slice(&blk);
+            }
+            img.splice(at..at, ins);
         }
         "duplicated-block" => {
             let b = block_size(ctx);
